@@ -79,7 +79,10 @@ func posPreds() []gen.Expr {
 		for _, n := range []float64{1, 2, 3} {
 			out = append(out, gen.B(op, pos(), gen.N(n)), gen.B(op, gen.N(n), pos()))
 		}
-		out = append(out, gen.B(op, pos(), last()))
+		out = append(out, gen.B(op, pos(), last()), gen.B(op, last(), pos()))
+	}
+	for _, n := range []float64{1, 2} {
+		out = append(out, gen.B("=", gen.B("-", last(), gen.N(n)), pos()), gen.B("=", pos(), gen.B("-", last(), gen.N(n))), gen.B(">", gen.B("-", last(), gen.N(n)), pos()))
 	}
 	out = append(out, last())
 	for _, n := range []float64{1, 2} {
